@@ -91,10 +91,12 @@ impl TorrentMaps {
         info_hash: InfoHash,
         peer_id: PeerId,
         ip_version: IpVersion,
+        consumer_id: ConsumerId,
+        connection_id: ConnectionId,
     ) {
         let torrent_map = self.get_torrent_map_by_ip_version(ip_version);
 
-        torrent_map.handle_connection_closed(info_hash, peer_id);
+        torrent_map.handle_connection_closed(info_hash, peer_id, consumer_id, connection_id);
     }
 
     fn get_torrent_map_by_ip_version(&mut self, ip_version: IpVersion) -> &mut TorrentMap {
@@ -266,10 +268,18 @@ impl TorrentMap {
         out_messages.push((meta.into(), OutMessage::ScrapeResponse(out_message)));
     }
 
-    pub fn handle_connection_closed(&mut self, info_hash: InfoHash, peer_id: PeerId) {
+    pub fn handle_connection_closed(
+        &mut self,
+        info_hash: InfoHash,
+        peer_id: PeerId,
+        consumer_id: ConsumerId,
+        connection_id: ConnectionId,
+    ) {
         if let Some(torrent_data) = self.torrents.get_mut(&info_hash) {
             torrent_data.handle_connection_closed(
                 peer_id,
+                consumer_id,
+                connection_id,
                 #[cfg(feature = "metrics")]
                 &self.peer_gauge,
             );
@@ -540,8 +550,19 @@ impl TorrentData {
     pub fn handle_connection_closed(
         &mut self,
         peer_id: PeerId,
+        consumer_id: ConsumerId,
+        connection_id: ConnectionId,
         #[cfg(feature = "metrics")] peer_gauge: &::metrics::Gauge,
     ) {
+        // The closed connection may have announced with a peer id that is
+        // stored for another connection (such announces are ignored). Only
+        // remove the peer if it was created by the closed connection.
+        match self.peers.get(&peer_id) {
+            Some(peer)
+                if peer.connection_id == connection_id && peer.consumer_id.0 == consumer_id.0 => {}
+            _ => return,
+        }
+
         if let Some(peer) = self.peers.swap_remove(&peer_id) {
             if peer.seeder {
                 self.num_seeders -= 1;
